@@ -278,7 +278,7 @@ func VerifH_C08_lookuplist() {
 // cursive attachment (3.1), mark-to-base (4.1) and mark-to-mark (6.1) with symbolic glyph ids, classes,
 // value records and anchors.
 func VerifH_C08_gpos2() {
-	kind := verifChoose("type", 4)
+	kind := verifChoose("type", 6)
 	an := func(tag string) anchor.Table {
 		return anchor.Table{X: funit.Int16(verifI16(tag + ".x")), Y: funit.Int16(verifI16(tag + ".y"))}
 	}
@@ -308,6 +308,23 @@ func VerifH_C08_gpos2() {
 			MarkArray: []markarray.Record{{Class: c0, Table: an("m0")}, {Class: c1, Table: an("m1")}},
 			BaseArray: [][]anchor.Table{{an("b00"), an("b01")}, {an("b10"), an("b11")}}}
 		checkSubtable(x, 4, true)
+	case 4, 5:
+		// large tables: 300 marks in non-contiguous glyph ids, so that the coverage tables and the mark array
+		// do not fit into the parser's 1024-byte window (the reader must not rely on buffered bytes surviving)
+		const n = 300
+		cov := coverage.Table{}
+		var marks []markarray.Record
+		for i := 0; i < n; i++ {
+			cov[glyph.ID(10+2*i)] = i
+			marks = append(marks, markarray.Record{Class: uint16(i % 2), Table: anchor.Table{X: funit.Int16(i), Y: funit.Int16(-i)}})
+		}
+		marks[0].Table, marks[n-1].Table = an("m0"), an("mlast")
+		rows := [][]anchor.Table{{an("b00"), an("b01")}, {an("b10"), an("b11")}}
+		if kind == 4 {
+			checkSubtable(&Gpos4_1{MarkCov: cov, BaseCov: verifCov(ids2), MarkArray: marks, BaseArray: rows}, 4, true)
+		} else {
+			checkSubtable(&Gpos6_1{Mark1Cov: cov, Mark2Cov: verifCov(ids2), Mark1Array: marks, Mark2Array: rows}, 6, true)
+		}
 	default:
 		c0, c1 := verifU16("class"), verifU16("class")
 		verifAssume(c0 <= 1 && c1 <= 1)
@@ -354,5 +371,97 @@ func VerifH_C08_scriptlist() {
 	for t, ft := range info {
 		g := got[t]
 		verifAssert(g != nil && g.Required == ft.Required && verifSame(g.Optional, ft.Optional), "features of every language system survive")
+	}
+}
+
+// VerifH_C08_big: subtables whose coverage tables / arrays are larger than the parser's 1024-byte window
+// (600 glyphs with non-contiguous ids), a few values symbolic: the round trip must not depend on where the
+// window boundaries fall (bytes returned by the parser are only valid until its next call).
+func VerifH_C08_big() {
+	const n = 600
+	kind := verifChoose("kind", 11)
+	cov := coverage.Table{}
+	set := coverage.Set{}
+	var gids []glyph.ID
+	for i := 0; i < n; i++ {
+		g := glyph.ID(7 + 3*i)
+		cov[g] = i
+		set[g] = true
+		gids = append(gids, g)
+	}
+	sym := glyph.ID(verifU16("gid"))
+	vr := func(i int) *GposValueRecord { return &GposValueRecord{XAdvance: funit.Int16(i - 300)} }
+	act := []SeqLookup{{SequenceIndex: verifU16("seqidx"), LookupListIndex: LookupIndex(verifU16("lookup"))}}
+	switch kind {
+	case 0:
+		x := &Gsub1_2{Cov: cov, SubstituteGlyphIDs: append([]glyph.ID{}, gids...)}
+		x.SubstituteGlyphIDs[n-1] = sym
+		checkSubtable(x, 1, false)
+	case 1:
+		x := &Gsub2_1{Cov: cov}
+		for i := 0; i < n; i++ {
+			x.Repl = append(x.Repl, []glyph.ID{glyph.ID(i), sym})
+		}
+		checkSubtable(x, 2, false)
+	case 2:
+		x := &Gsub3_1{Cov: cov}
+		for i := 0; i < n; i++ {
+			x.Alternates = append(x.Alternates, []glyph.ID{glyph.ID(i), glyph.ID(i + 1)})
+		}
+		x.Alternates[n-1][1] = sym
+		checkSubtable(x, 3, false)
+	case 3:
+		x := &Gsub4_1{Cov: cov}
+		for i := 0; i < n; i++ {
+			x.Repl = append(x.Repl, []Ligature{{In: []glyph.ID{glyph.ID(i)}, Out: glyph.ID(i + 5)}})
+		}
+		x.Repl[n-1][0].Out = sym
+		checkSubtable(x, 4, false)
+	case 4:
+		x := &Gpos1_2{Cov: cov}
+		for i := 0; i < n; i++ {
+			x.Adjust = append(x.Adjust, vr(i))
+		}
+		x.Adjust[n-1] = &GposValueRecord{XAdvance: funit.Int16(verifI16("adv"))}
+		checkSubtable(x, 1, true)
+	case 5:
+		x := Gpos2_1{}
+		for i := 0; i < n; i++ {
+			x[glyph.Pair{Left: gids[i%40], Right: gids[i]}] = &PairAdjust{First: vr(i)}
+		}
+		x[glyph.Pair{Left: gids[0], Right: sym}] = &PairAdjust{First: &GposValueRecord{XAdvance: funit.Int16(verifI16("adv"))}}
+		checkSubtable(x, 2, true)
+	case 6:
+		c1, c2 := classdef.Table{}, classdef.Table{}
+		for i, g := range gids {
+			c1[g] = uint16(1 + i%2)
+			c2[g] = uint16(1 + i%3)
+		}
+		adj := make([][]*PairAdjust, 3)
+		for i := range adj {
+			for j := 0; j < 4; j++ {
+				adj[i] = append(adj[i], &PairAdjust{First: vr(10*i + j)})
+			}
+		}
+		adj[2][3] = &PairAdjust{First: &GposValueRecord{XAdvance: funit.Int16(verifI16("adv"))}}
+		checkSubtable(&Gpos2_2{Cov: set, Class1: c1, Class2: c2, Adjust: adj}, 2, true)
+	case 7:
+		x := &Gpos3_1{Cov: cov}
+		for i := 0; i < n; i++ {
+			x.Records = append(x.Records, EntryExitRecord{Entry: anchor.Table{X: funit.Int16(i + 1), Y: 1}, Exit: anchor.Table{X: 2, Y: funit.Int16(i + 1)}})
+		}
+		x.Records[n-1].Exit = anchor.Table{X: funit.Int16(verifI16("ax")), Y: funit.Int16(verifI16("ay"))}
+		checkSubtable(x, 3, true)
+	case 8:
+		x := &SeqContext1{Cov: cov}
+		for i := 0; i < n; i++ {
+			x.Rules = append(x.Rules, []*SeqRule{{Input: []glyph.ID{glyph.ID(i)}, Actions: []SeqLookup{{SequenceIndex: 1, LookupListIndex: LookupIndex(i)}}}})
+		}
+		x.Rules[n-1][0].Actions = act
+		checkSubtable(x, 5, false)
+	case 9:
+		checkSubtable(&SeqContext3{Input: []coverage.Set{set, {sym: true}, set}, Actions: act}, 5, false)
+	default:
+		checkSubtable(&ChainedSeqContext3{Backtrack: []coverage.Set{set}, Input: []coverage.Set{{sym: true}}, Lookahead: []coverage.Set{set, set}, Actions: act}, 6, false)
 	}
 }
